@@ -176,6 +176,8 @@ class C06(CheckBase):
                     p = ids + skip + 2 * (f["off"] % (nbytes * 8)) + 1
                 else:
                     nbytes = (de - ds - skip) // 16
+                    if nbytes <= 0:
+                        continue              # the sector has no data field at all (id-only quirk): nothing to flip
                     p = ds + skip + 2 * (f["off"] % (nbytes * 8)) + 1
                 if 0 <= p < len(c):
                     c[p] ^= 1
